@@ -360,6 +360,12 @@ func simpleCell(al *ssa.Alloc) bool {
 				return false
 			}
 		case *ssa.DebugRef:
+		case *ssa.Call:
+			// multierr.AppendInto(&cell, err): the cell's address goes nowhere else; the engine applies the
+			// accumulation itself (see builtinContract)
+			if g := r.Call.StaticCallee(); g == nil || g.String() != "go.uber.org/multierr.AppendInto" || len(r.Call.Args) != 2 || r.Call.Args[0] != ssa.Value(al) {
+				return false
+			}
 		case *ssa.MakeClosure:
 			// captured by a closure that only reads it (e.g. a deferred
 			// `if err != nil { cleanup }` over a named result)
@@ -1408,6 +1414,39 @@ func (e *Engine) builtinContract(c *config, call ssa.CallInstruction) ([]Abs, bo
 			}
 		}
 		return []Abs{res}, true
+	case "go.uber.org/multierr.AppendInto":
+		// *into = Append(*into, err); reports whether err was non-nil
+		if al, ok := call.Common().Args[0].(*ssa.Alloc); ok && simpleCell(al) {
+			b := e.eval(c, call.Common().Args[1])
+			a := Unknown
+			if _, has := e.ids[al]; has {
+				a = c.get(e.ids[al])
+			} else {
+				a = Zero // a named result / fresh local starts out nil until something is stored
+				for _, r := range *al.Referrers() {
+					if st, isSt := r.(*ssa.Store); isSt && st.Addr == ssa.Value(al) {
+						a = Unknown
+					}
+				}
+			}
+			res := Unknown
+			switch {
+			case a == NonZero || b == NonZero:
+				res = NonZero
+			case a == Zero && b == Zero:
+				res = Zero
+			}
+			e.id(al)
+			e.setFact(c, al, res)
+			switch b {
+			case NonZero:
+				return []Abs{NonZero}, true
+			case Zero:
+				return []Abs{Zero}, true
+			}
+			return []Abs{Unknown}, true
+		}
+		return nil, false
 	case "go.uber.org/multierr.Append":
 		a, b := e.eval(c, call.Common().Args[0]), e.eval(c, call.Common().Args[1])
 		if a == NonZero || b == NonZero {
